@@ -44,7 +44,10 @@ ANCHORS = ["main.read_topmatter", "main.merge_file_level", "directives._parse_di
 TMP = None
 REACH = None
 HOSTILE_DEST = ["a" * 300 + ".md", "x%00y.md", "../" * 40 + "etc/passwd", ".", "..", "/", "dir/", "a\\b.md", "%", "%zz", "#", "?q#f", "file:///etc/passwd", "C:\\x.md", "\u202e.md", "a b.md", "<>", "'\"", "con.md#" + "f" * 500,
-                "project:", "path:", "inv:", "inv:::", "inv:k:*:*#*", "project:#", "path:/" + "p" * 300, "http://[::1", "mailto:", "//host/x"]
+                "project:", "path:", "inv:", "inv:::", "inv:k:*:*#*", "project:#", "path:/" + "p" * 300, "http://[::1", "mailto:", "//host/x",
+                # authorities that urllib only validates when a part is read (port, hostname), for plain and templated schemes
+                "wiki://localhost:99999/Page", "wiki://h:p/x", "gh://h:\u00b2/x", "wiki://user:pw@host:port/p?q#f", "wiki://h:-1/", "http://h:99999999999999999999/", "wiki://[v1.x]:1/", "wiki://h:65536", "gh:org/repo#1",
+                "wiki://%zz:80/", "https://ex ample.org:8o/"]
 
 
 def setup(ctx):
@@ -542,7 +545,15 @@ def run_shard(ctx):
     # several constructs per build keep this affordable; a failing build is bisected by re-running its members alone
     for j in range(0, len(batch), 6):
         texts = batch[j:j + 6]
-        case = {"kind": "sphinx", "sub": "link-matrix", "text": "\n\n".join(texts), "cfg": {"enable_extensions": ["attrs_inline", "colon_fence"]}, "builder": "html" if j % 4 == 0 else "dummy"}
+        mcfg = {"enable_extensions": ["attrs_inline", "colon_fence"]}
+        if (j // 6) % 2:
+            # schemes rendered through a template (every template variable is filled in for each link)
+            mcfg["url_schemes"] = {"http": None, "https": None, "wiki": "https://en.wikipedia.org/wiki/{{path}}#{{fragment}}", "gh": {"url": "https://github.com/{{path}}", "title": "{{netloc}} {{path}} {{query}}", "classes": ["gh"]}}
+        case = {"kind": "sphinx", "sub": "link-matrix", "text": "\n\n".join(texts), "cfg": mcfg, "builder": "html" if j % 4 == 0 else "dummy"}
+        # the same constructs through the docutils front end
+        dcase = {"kind": "doc", "sub": "link-matrix", "text": case["text"], "cfg": mcfg}
+        eval_case(ctx, dcase)
+        ctx.case(("docutils-matrix", case["text"], repr(mcfg)), True)
         before = len(ctx.violations)
         ok = eval_case(ctx, case)
         ctx.case(("sphinx-matrix", case["text"]), True)
